@@ -431,7 +431,7 @@ func (x *Exec) fArith(op string, a, c *smt.Term) *smt.Term {
 		case "*":
 			return x.b.Mul(a, c)
 		case "/":
-			return x.b.RDiv(a, c)
+			return x.realDiv(a, c)
 		}
 		panic("bad float op " + op)
 	}
@@ -496,10 +496,10 @@ func (x *Exec) goEq(t types.Type, a, c *smt.Term) *smt.Term {
 		}
 		return x.b.Eq(a, c)
 	case *types.Struct:
-		if !x.fp || !containsFloat(t) {
+		si := x.so.StructInfo(t)
+		if len(si.Fields) == 0 || len(si.Fields) > 12 {
 			return x.b.Eq(a, c)
 		}
-		si := x.so.StructInfo(t)
 		var cs []*smt.Term
 		for i := range si.Fields {
 			cs = append(cs, x.goEq(si.FTypes[i], x.fieldOf(a, t, i), x.fieldOf(c, t, i)))
@@ -597,4 +597,30 @@ func (x *Exec) rdSlice(arr, off, idx *smt.Term, es string) *smt.Term {
 		x.b.Declare("ax:"+name, fmt.Sprintf("(assert (forall ((a %s) (o Int) (i Int)) (! (= (%s a o i) (select a (+ o i))) :pattern ((%s a o i)))))", as, name, name))
 	}
 	return x.b.App(name, es, arr, off, idx)
+}
+
+// realDiv models a/c in the real model as a * recip(c) where recip(c) is a
+// constant constrained by c != 0 ==> recip(c)*c = 1 (division by zero yields an
+// unconstrained value, i.e. every result is considered possible).
+func (x *Exec) realDiv(a, c *smt.Term) *smt.Term {
+	if c.RatV != nil && c.RatV.Sign() != 0 {
+		if a.RatV != nil {
+			return x.b.RDiv(a, c)
+		}
+		return x.b.Mul(a, x.b.Real(new(big.Rat).Inv(c.RatV)))
+	}
+	if c.Bound || a.Bound {
+		return x.b.RDiv(a, c)
+	}
+	if x.recips == nil {
+		x.recips = map[int]*smt.Term{}
+	}
+	r, ok := x.recips[c.ID]
+	if !ok {
+		r = x.b.Fresh("recip", "Real")
+		x.recips[c.ID] = r
+		zero := x.b.Real(new(big.Rat))
+		x.axiom(x.b.Implies(x.b.Not(x.b.Eq(c, zero)), x.b.Eq(x.b.Mul(r, c), x.b.Real(big.NewRat(1, 1)))))
+	}
+	return x.b.Mul(a, r)
 }
